@@ -243,7 +243,7 @@ def gen_dsort_case(rng):
         cols['lst'] = [rng.choice([[10, 20], [], {'$t': [1, 2]}, [7]]) for _ in range(n)]       # vector-valued cells are cells
     r = rng.random()
     if r < 0.55:
-        by = {'cols': rng.sample(names, rng.randint(1, len(names))), 'as_list': rng.choice([True, True, 'mixed', False, False, False, False, False, False, False])}      # 'mixed': the first key by itself, the others as a list
+        by = {'cols': rng.sample(names, rng.randint(1, len(names))), 'as_list': rng.choice([True, True, 'mixed', 'kept_lists', False, False, False, False, False, False])}      # 'mixed': the first key by itself, the others as a list
     elif r < 0.75:
         by = {'fn': rng.choice(['ident', 'isnone', 'strlen']), 'arg': rng.choice(names)}
     else:
@@ -276,6 +276,11 @@ def run_dsort(case, ctx):
     if 'cols' in by:
         call = (lambda t: t.sort(list(by['cols']))) if by.get('as_list') is True else (lambda t: t.sort(by['cols'][0], list(by['cols'][1:]))) if by.get('as_list') == 'mixed' and len(by['cols']) >= 2 else (lambda t: t.sort(*by['cols']))       # the key columns as separate arguments or as one list: the same keys in the same order
         key = lambda r: tuple(r[c] for c in by['cols'])
+        if by.get('as_list') == 'kept_lists' and len(by['cols']) >= 2:
+            # the caller keeps its key lists and passes the very same objects every time: sort(major, minor) leaves them as they are
+            major, minor = list(by['cols'][:1]), list(by['cols'][1:])
+            call = lambda t: t.sort(major, minor)
+            kept_lists = [(major, list(major)), (minor, list(minor))]
     elif 'fn' in by:
         f0 = KEYFN[by['fn']]
         f = eval('lambda %s: f0(%s)' % (by['arg'], by['arg']), {'f0': f0})
@@ -318,6 +323,9 @@ def run_dsort(case, ctx):
         ok3 = st3 == 'ok' and len(res3) == len(exp3) and all(same(dict(a), b) for a, b in zip(res3, exp3))
         ctx.check('dsort_model', ok3, lambda: 'sorting again after the key column %r was reassigned: %s, model %s' % (c0, [dict(r) for r in res3] if st3 == 'ok' else res3, exp3))
         res[c0] = col
+    if 'cols' in by and by.get('as_list') == 'kept_lists' and len(by['cols']) >= 2:
+        ctx.check('operands_unchanged', all(a == b for a, b in kept_lists), lambda: 'sort(major, minor) edited the key lists it was given: %r' % ([a for a, _ in kept_lists],))
+        ctx.cls('dsort:key_lists_kept_by_the_caller')
     st2, res2 = ctx.call(call, res)
     ctx.check('dsort_idempotent', st2 == 'ok' and list(res2.get('id')) == list(res.get('id')), lambda: 'sort(sort(d)) ids %s != %s' % (list(res2.get('id')) if st2 == 'ok' else res2, list(res.get('id'))))
     ks = [key(r) for r in rows]
